@@ -24,7 +24,8 @@ RULE = ('trait-combination images built from each format\'s layout (qcow2: each 
         'or beyond the 2048-sector clamp (> 1 MiB, header desc_num 2048/2049/4096 vs a different large footer '
         'desc_num) -, text-descriptor mode and KDMV headers '
         'with a text version field (class KF_F1); QED; LUKS versions; MBR tables over ten entry kinds - all 3^4 '
-        'empty/plain/protective occupancies, all 2^4 bootable ones, every single deviation from the clean '
+        'empty/plain/protective occupancies, for the protective entry every other value of each start-CHS byte '
+        '(3 x 255), deviating pairs, every bit flip and byte deviation of the start LBA, all 2^4 bootable ones, every single deviation from the clean '
         'protective table, random (quick) or all 10^4 (thorough) combinations; raw/vhd/vdi/iso/vhdx clean) plus '
         'truncations at every structure boundary, each streamed under chunkings from images.chunkings (one chunk, '
         'fixed sizes, cuts at -1/0/+1 of structure boundaries, random, empty chunks); the same images as files '
